@@ -48,6 +48,16 @@ def run_kani_part(pid, rep):
         reproduced = fn(items)
         replayed += 1
         if not reproduced:
+            # no battery scenario reproduces: native concrete playback for stub-free harnesses
+            stubfree = [n for n, r in items if not r["spec"].get("stubs")]
+            if stubfree:
+                for harness, failed_natively, src in kani.native_playback(pid + "-" + kind, stubfree):
+                    if failed_natively:
+                        reproduced.append(({"kani-native-playback", harness.split("::")[-1]},
+                                           {"short": {"harness": harness,
+                                                      "scenario": "Kani concrete playback: the unit test below fails natively (dev profile) against the real code",
+                                                      "test": src[-900:]}}))
+        if not reproduced:
             inconclusive.append(
                 "Kani counterexample in %s did not reproduce through the public API / natively "
                 "(pre-state not reachable, or no reproduction scenario): %s"
